@@ -66,3 +66,29 @@ def offdiag_energy(m):
     off = m * (1 - np.eye(D))
     tot = np.sum(np.abs(m) ** 2, axis=(-2, -1))
     return float(np.min(np.sum(np.abs(off) ** 2, axis=(-2, -1)) / np.maximum(tot, 1e-300)))
+
+
+def relayout(a, layout):
+    """the same array values behind another memory layout"""
+    a = np.asarray(a)
+    if layout == 'transposed-view' and a.ndim >= 2:
+        return np.ascontiguousarray(np.swapaxes(a, -1, -2)).swapaxes(-1, -2)
+    if layout == 'fortran' and a.ndim >= 2:
+        return np.asfortranarray(a)
+    if layout == 'strided' and a.ndim >= 1 and a.shape[-1] >= 1:
+        big = np.zeros((*a.shape[:-1], 2 * a.shape[-1]), dtype=a.dtype)
+        view = big[..., ::2]
+        view[...] = a
+        return view
+    if layout == 'leading-transposed' and a.ndim >= 3:
+        # leading axes stored in the other order
+        return np.ascontiguousarray(np.swapaxes(a, 0, 1)).swapaxes(0, 1)
+    return a
+
+
+LAYOUTS = ['c', 'c', 'c', 'transposed-view', 'fortran', 'strided', 'leading-transposed']
+
+
+def vary(d, a, tag):
+    """relayout ``a`` as decided by the auxiliary stream ``tag`` of the case"""
+    return relayout(a, LAYOUTS[int(d.aux(tag).integers(0, len(LAYOUTS)))])
